@@ -7,7 +7,7 @@ use crate::util::{is_blank, lead};
 #[derive(Clone, Debug, PartialEq, Eq)]
 pub enum Fate {
     Kept,
-    /// removed; `seam` identifies the removed region (element index * 2 + part)
+    /// removed; `seam` identifies the removed region: element index * 4 + (0 whole element, 1 opening part, 2 closing part)
     Removed { seam: usize },
 }
 
@@ -43,7 +43,7 @@ pub fn line_truth(r: &Rendered, tr: &Truth) -> LineTruth {
             Extent::Whole(_) => {
                 for f in fate.iter_mut().take(e.close_line + 1).skip(e.open_line) {
                     if *f == Fate::Kept {
-                        *f = Fate::Removed { seam: 2 * i };
+                        *f = Fate::Removed { seam: 4 * i };
                     }
                 }
             }
@@ -65,12 +65,12 @@ pub fn line_truth(r: &Rendered, tr: &Truth) -> LineTruth {
                 }
                 for l in [e.open_line, e.open_line + 1] {
                     if fate[l] == Fate::Kept {
-                        fate[l] = Fate::Removed { seam: 2 * i };
+                        fate[l] = Fate::Removed { seam: 4 * i + 1 };
                     }
                 }
                 for l in [e.close_line - 1, e.close_line] {
                     if fate[l] == Fate::Kept {
-                        fate[l] = Fate::Removed { seam: 2 * i + 1 };
+                        fate[l] = Fate::Removed { seam: 4 * i + 2 };
                     }
                 }
                 for l in e.open_line + 2..e.close_line - 1 {
@@ -148,4 +148,70 @@ pub fn strict(lt: &LineTruth) -> bool {
         }
     }
     any
+}
+
+
+/// Why a document is not in the line-for-line sub-space of C11, or None if it is:
+/// every maximal run of removed lines must belong to one seam, must not touch the start / end of the
+/// file, and must not have blank lines on BOTH sides (one side is fine: those blank lines all survive).
+pub fn residue_class(lt: &LineTruth) -> Option<&'static str> {
+    let n = lt.fate.len();
+    let mut i = 0;
+    let mut any = false;
+    let mut worst: Option<&'static str> = None;
+    while i < n {
+        if let Fate::Removed { seam } = lt.fate[i] {
+            any = true;
+            let mut j = i;
+            let mut mixed = false;
+            while j < n {
+                match lt.fate[j] {
+                    Fate::Removed { seam: s2 } => {
+                        if s2 != seam {
+                            mixed = true;
+                        }
+                    }
+                    Fate::Kept => break,
+                }
+                j += 1;
+            }
+            if mixed {
+                return Some("adjacent-removed-parts");
+            }
+            if i == 0 || j >= n {
+                worst = Some("removed-part-at-file-boundary");
+            } else {
+                // blank (kept) lines directly before / after the run, and what lies beyond them
+                let mut b = i;
+                while b > 0 && lt.fate[b - 1] == Fate::Kept && is_blank(&lt.text[b - 1]) {
+                    b -= 1;
+                }
+                let mut a = j;
+                while a < n && lt.fate[a] == Fate::Kept && is_blank(&lt.text[a]) {
+                    a += 1;
+                }
+                let (nb, na) = (i - b, a - j);
+                // blank lines that border ANOTHER removed run (or the file boundary) make the seams adjacent
+                let before_ok = b > 0 && lt.fate[b - 1] == Fate::Kept;
+                let after_ok = a < n && lt.fate[a] == Fate::Kept;
+                if !before_ok || !after_ok {
+                    if nb > 0 || na > 0 || b == 0 || a >= n {
+                        return Some("adjacent-removed-parts");
+                    }
+                }
+                if nb > 0 && na > 0 {
+                    // around a default-strategy removal this is the collapse C13 specifies (a+b-1); around an
+                    // unwrap part the property says every line except the four survives
+                    return Some(if seam % 4 == 0 { "default-removal-between-blank-lines(C13-formula)" } else { "blank-lines-on-both-sides" });
+                }
+            }
+            i = j;
+        } else {
+            i += 1;
+        }
+    }
+    if !any {
+        return Some("nothing-removed");
+    }
+    worst
 }
